@@ -842,10 +842,22 @@ def compute_kek(
 
     secret_hash_algorithm: hashes.HashAlgorithm
     if secret_algorithm == "DH":
-        # p = FFCDHParameters.unpack(secret_parameters or b"")
         # We can derive the shared secret based on the DH formula.
         # s = y**x mod p
         dh_pub_key = FFCDHKey.unpack(public_key)
+
+        # The peer's key comes from the blob's key identifier or the DC, it
+        # must be for the group of this key and a usable member of it. A value
+        # of 0, 1, or p - 1, or a group of the peer's choosing, gives a shared
+        # secret the peer knows without knowing any key.
+        if secret_parameters:
+            dh_params = FFCDHParameters.unpack(secret_parameters)
+            if (dh_pub_key.field_order, dh_pub_key.generator) != (dh_params.field_order, dh_params.generator):
+                raise ValueError("DH public key is not for the secret agreement parameters of the group key")
+
+        if not 1 < dh_pub_key.public_key < dh_pub_key.field_order - 1:
+            raise ValueError("DH public key is not a valid value for the group")
+
         shared_secret_int = pow(
             dh_pub_key.public_key,
             int.from_bytes(private_key, byteorder="big"),
